@@ -162,6 +162,7 @@ func (m *Memberlist) schedule() {
 // triggerFunc is used to trigger a function call each time a
 // message is received until a stop tick arrives.
 func (m *Memberlist) triggerFunc(stagger time.Duration, C <-chan time.Time, stop <-chan struct{}, f func()) {
+	defer m.vop("go", "triggerFunc")()
 	// Use a random stagger to avoid syncronizing
 	randStagger := time.Duration(uint64(rand.Int63()) % uint64(stagger))
 	select {
@@ -184,6 +185,7 @@ func (m *Memberlist) triggerFunc(stagger time.Duration, C <-chan time.Time, stop
 // timer is dynamically scaled based on cluster size to avoid network
 // saturation
 func (m *Memberlist) pushPullTrigger(stop <-chan struct{}) {
+	defer m.vop("go", "pushPullTrigger")()
 	interval := m.config.PushPullInterval
 
 	// Use a random stagger to avoid syncronizing
